@@ -35,6 +35,17 @@ def run(tier, seed, replay=None):
     ]
     n_docs = 120 if tier == "quick" else 3000
     docs = common.gen_docs(PROP, seed, n_docs, profile="F", replay=replay, defaults=0.6)
+    # non-exclusive anyOf of objects: typify emits a struct of flattened Option members (all defaulted)
+    for i in range(max(4, n_docs // 12)):
+        r = util.rng(seed, PROP, "anyof", i)
+        names = r.sample(["a", "b", "c", "dd", "e_e"], 4)
+        b1 = {"type": "object", "properties": {names[0]: {"type": "string"}, names[1]: {"type": "integer"}}}
+        b2 = {"type": "object", "properties": {names[1]: {"type": "integer"}, names[2]: {"type": "boolean"}}}
+        if r.random() < 0.5:
+            b1["required"] = [names[0]]
+        doc = {"definitions": {"Contact": {"anyOf": [b1, b2] + ([{"type": "object", "properties": {names[3]: {"type": "string"}}}]
+                                                                if r.random() < 0.4 else [])}}}
+        docs.append(("y%04d" % i, doc, ["anyof_overlap"]))
     cases = [{"id": did, "settings": {"struct_builder": True}, "history": [{"op": "root", "schema": doc}]}
              for did, doc, used in docs]
     docmap = {did: (doc, used) for did, doc, used in docs}
@@ -77,15 +88,21 @@ def run(tier, seed, replay=None):
             insts = [v for v in ig.instances(dschema, 5) if isinstance(v, dict) and pipeline.within_i64(v)]
             insts = [v for v in insts if orc.valid_or_none(v, dname)]
             required = set()
+            schema_reference = True
             rs = dschema
             if isinstance(rs, dict) and rs.get("type") == "object":
                 required = set(rs.get("required", []))
+            elif isinstance(rs, dict) and isinstance(rs.get("anyOf"), list):
+                schema_reference = False   # flattened union struct: serde on the same members is the only reference
+                insts = insts + [{}]
             else:
                 continue   # allOf etc.: required set of the merged schema is not read from the document here
             for v in insts[:3]:
                 declared = [k for k in v if k in inv]
                 extra = {k: x for k, x in v.items() if k not in inv}
                 members = declared + (["<extra>"] if flat and extra else [])
+                if not schema_reference:
+                    members = []   # flattened union struct: only the 'nothing set' build has an unambiguous reference
                 if len(members) <= 6:
                     subsets = [list(c) for n_ in range(len(members) + 1) for c in itertools.combinations(members, n_)]
                 else:
@@ -102,6 +119,7 @@ def run(tier, seed, replay=None):
                             setmap[inv[m]] = v[m]
                             obj[m] = v[m]
                     meta = {"def": dname, "schema": dschema, "subset": sorted(sub), "required": sorted(required),
+                            "schema_reference": schema_reference,
                             "obj": obj, "type": tname, "doc": doc, "used": used, "flat": bool(flat)}
                     add({"case": cid, "ty": tname, "op": "build", "input": {"set": setmap}, "meta": dict(meta, kind="build")})
                     add({"case": cid, "ty": tname, "op": "de", "input": json.dumps(obj), "meta": dict(meta, kind="ref_de")})
@@ -143,8 +161,8 @@ def run(tier, seed, replay=None):
                 rep.count("setter_value_not_deserialisable")   # the member's value does not fit the field type (C02's concern)
                 continue
             b_ok = bool((o.get("r") or {}).get("ok"))
-            s_ok = set(m["required"]) <= set(m["subset"])
             d_ok = bool(oref.get("ok"))
+            s_ok = (set(m["required"]) <= set(m["subset"])) if m.get("schema_reference", True) else d_ok
             if b_ok != s_ok and b_ok != d_ok:
                 site = "build=%s schema=%s serde=%s%s" % (b_ok, s_ok, d_ok, " flat" if m["flat"] else "")
                 err_ = (o.get("r") or {}).get("err") or ""
